@@ -21,7 +21,6 @@ from hypothesis import strategies as st
 import strax
 from vf import gen
 from vf.core import Excluded, SubCheck, Violation
-from vf.findings import load as findings_load
 from vf.findings import signature
 
 PROPERTY_ID = "C10"
@@ -31,12 +30,15 @@ RULE = (
     "type: admissible source cuts incl. zero-duration chunks, time encoding, rechunk-on-save / rechunk-on-load "
     "with tiny targets) + requests.  Range endpoints are taken from the candidate set {row starts, row ends, "
     "on-disk chunk edges} + {-1,0,+1} plus two far-outside values; sub-check `sweep` runs EVERY pair r0<=r1 of "
-    "that set (runs of <=6 rows) in both time-selection modes, `ranges` / `multi` draw pairs and combine them "
-    "with the three range forms (time_range, seconds_range on the 2**-2 s / 2**-9 s units, time_within), "
-    "time_selection fully_contained/touching/skip/default, selection strings / lists / callables, keep/drop "
-    "columns, both processors, single and both same-kind targets; `unsaved` asks partial requests of data "
-    "that is not stored yet.  Non-trivial = an endpoint coincides with or is adjacent (+-1) to a row or chunk "
-    "edge and the requested data has >=2 chunks on disk.  distinct = distinct descriptor hashes."
+    "that set (runs of <=6 rows) in both time-selection modes; `ranges` (single targets, 18-30 independent "
+    "requests per layout) and `multi` (both same-kind targets together, one range shown in 2-5 presentations) draw "
+    "pairs and combine them with the three range forms (time_range, seconds_range on the 2**-2 s / 2**-9 s units, "
+    "time_within a synthetic or a data row), time_selection fully_contained/touching/skip/default, selection "
+    "strings / lists / tuples / callables, keep/drop columns, both processors; `unsaved` asks partial requests "
+    "(range / selection / columns) of data that is not stored yet and looks for anything written.  Non-trivial = "
+    "an endpoint coincides with or is adjacent (+-1) to a row or chunk edge and the requested data has >=2 chunks "
+    "on disk (`unsaved`: the control full request afterwards did write the data).  inner_evaluations = number of "
+    "get_array requests compared with the oracle; distinct = distinct descriptor hashes."
 )
 ASSUMPTIONS = [
     "stored data obeys the laws of chunking: rows sorted by time, positive duration, wholly inside one chunk, "
@@ -320,10 +322,12 @@ def st_atom(draw, scal, T):
     return [f, op, c]
 
 
+SEL_KINDS = ["none", "none", "str", "str", "str_or", "str_and", "list", "tuple", "callable", "empty_list"]
+
+
 @st.composite
-def st_selection(draw, scal, T):
-    kind = draw(st.sampled_from(["none", "none", "str", "str", "str_or", "str_and", "list", "tuple", "callable",
-                                 "empty_list"]))
+def st_selection(draw, scal, T, kinds=SEL_KINDS):
+    kind = draw(st.sampled_from(kinds))
     if kind in ("none", "empty_list"):
         return dict(kind=kind, atoms=[])
     n = 1 if kind in ("str",) else 2 if kind in ("str_or", "str_and") else draw(st.integers(1, 3))
@@ -331,8 +335,9 @@ def st_selection(draw, scal, T):
 
 
 @st.composite
-def st_columns(draw, allf, both_p=True):
-    kind = draw(st.sampled_from(["none", "none", "keep", "keep", "drop", "drop"] + (["both"] if both_p else [])))
+def st_columns(draw, allf, both_p=True, none_p=True):
+    kind = draw(st.sampled_from((["none", "none"] if none_p else []) + ["keep", "keep", "drop", "drop"]
+                                + (["both"] if both_p else [])))
     if kind == "none":
         return dict(kind=kind)
     if kind == "keep":
@@ -733,6 +738,8 @@ def run_ranges(d):
 @st.composite
 def st_sweep(draw):
     L = draw(st_layout(max_n=6))
+    for t in L["types"]:
+        t["cuts"] = t["cuts"][:4]
     tg = draw(st_targets(L))
     sec_ok = L["unit"] in SEC_UNITS
     form = draw(st.sampled_from(["time_range", "time_range", "time_within"] + (["seconds_range"] * 2 if sec_ok else [])))
@@ -741,7 +748,7 @@ def st_sweep(draw):
                 sel=draw(st.sampled_from([dict(kind="none", atoms=[])] * 3 + [None])) or draw(st_selection(scal, L["T"])),
                 cols=draw(st_columns(allf, both_p=False)),
                 proc=draw(st.sampled_from(["single_thread"] * 4 + ["threaded_mailbox"])))
-    return dict(layout=L, tg=tg, view=view, level=draw(st.sampled_from(["ns", "grid"])))
+    return dict(layout=L, tg=tg, view=view, level=draw(st.sampled_from(["ns", "grid", "grid"])))
 
 
 def run_sweep(d):
@@ -754,6 +761,8 @@ def run_sweep(d):
         classes = layout_classes(S, tg[1:])
         grid = d["view"]["form"] == "seconds_range" or d["level"] == "grid"
         cand = S.cand_grid() if grid else S.cand_ns()
+        if len(cand) > 24:  # the threaded processor costs ~5x more per request: keep it for the smaller sweeps
+            d = dict(d, view=dict(d["view"], proc="single_thread"))
         npairs = 0
         for i, r0 in enumerate(cand):
             for r1 in cand[i:]:
@@ -775,9 +784,6 @@ def run_sweep(d):
 # sub-check `multi`: both same-kind targets together, one range, several presentations
 # ------------------------------------------------------------------------------------------------
 STEER = not os.environ.get("C10_NO_STEER")  # development switch: look at the recorded findings unsteered
-# F14 (Plugin.iter never fetches a trailing zero-duration chunk of a non-pacemaker dependency) was found by this
-# sub-check too; it is steered around only while some entry of known_findings.json lists it as still open.
-STEER_F14 = any(e.get("finding") == "F14" and e.get("status") == "known" for e in findings_load())
 
 
 @st.composite
@@ -887,13 +893,12 @@ def multi_tags(S, r0, r1, order):
 
 
 def steer_away(S, r0, r1, order):
-    """Finding id when (layout, range, target order) has the shape of a recorded finding, else None."""
+    """Finding id when (layout, range, target order) has the shape of a recorded finding, else None.
+    (F14 - trailing zero-duration chunk of a non-pacemaker dependency - was found here too; it is fixed in the
+    tree, so those shapes are searched, see replay/C10-F14-*.json.)"""
     multi_tags(S, r0, r1, order)
     t = set(TAGS)
     rol = "rechunk-on-load" in t  # then the pacemaker is not predictable from the disk layout alone
-    if STEER_F14 and ("trailing-zero-duration-chunk:non-pacemaker" in t
-                      or (rol and "trailing-zero-duration-chunk:pacemaker" in t)):
-        return "F14"
     if "r1-inside-a-row" in t and "loaders-end-at-different-times" in t and (rol or "pacemaker-ends-later" in t):
         return "F13"
     return None
@@ -907,13 +912,6 @@ def _sig_f13(sub, desc, bucket, message):
     return (sub == "multi" and bucket.startswith("clause:request.raised:RuntimeError")
             and "[r1-inside-a-row]" in message and "[loaders-end-at-different-times]" in message
             and ("ended prematurely" in message or "terminated without fetching last" in message))
-
-
-@signature("F14_multi_target_trailing_zero_duration_chunk")
-def _sig_f14(sub, desc, bucket, message):
-    """Plugin.iter with >=2 dependencies: a trailing zero-duration chunk of a dependency is never fetched."""
-    return (sub == "multi" and bucket.startswith("clause:request.raised:RuntimeError")
-            and "[trailing-zero-duration-chunk:" in message and "terminated without fetching last" in message)
 
 
 # ------------------------------------------------------------------------------------------------
@@ -945,10 +943,9 @@ def st_unsaved(draw):
     # (a source that is not stored cannot be asked for a time range at all)
     partial = draw(st.sampled_from(["range", "range", "selection", "columns", "range+selection"] if target == "cc"
                                    else ["selection", "columns"]))
-    sel = draw(st_selection(scal, L["T"]).filter(lambda s: s["kind"] not in ("none", "empty_list"))) \
+    sel = draw(st_selection(scal, L["T"], kinds=[k for k in SEL_KINDS if k not in ("none", "empty_list")])) \
         if "selection" in partial else dict(kind="none", atoms=[])
-    cols = draw(st_columns(allf, both_p=False).filter(lambda c: c["kind"] != "none")) \
-        if partial == "columns" else dict(kind="none")
+    cols = draw(st_columns(allf, both_p=False, none_p=False)) if partial == "columns" else dict(kind="none")
     return dict(layout=L, target=target, save_when=save_when, partial=partial, sel=sel, cols=cols,
                 a=draw(st.integers(0, 199)), b=draw(st.integers(0, 199)),
                 tsel=draw(st.sampled_from(["fully_contained", "touching"])),
@@ -1012,8 +1009,10 @@ def run_unsaved(d):
 
 
 SUBCHECKS = [
-    SubCheck("ranges", run_ranges, strategy=st_ranges, quick=800, thorough=20000, sample_cap=1500),
-    SubCheck("sweep", run_sweep, strategy=st_sweep, quick=160, thorough=3000, min_per_shard=5, sample_cap=1500),
-    SubCheck("multi", run_multi, strategy=st_multi, quick=1200, thorough=16000, sample_cap=1500),
-    SubCheck("unsaved", run_unsaved, strategy=st_unsaved, quick=800, thorough=16000, sample_cap=1500),
+    SubCheck("ranges", run_ranges, strategy=st_ranges, quick=600, thorough=20000, sample_cap=1500,
+             required_classes=("no_chunk_error", "r0_inside_row", "r1_inside_row", "r0_on_chunk_edge",
+                               "r1_on_chunk_edge", "form:seconds_range", "proc:threaded_mailbox", "tsel:touching")),
+    SubCheck("sweep", run_sweep, strategy=st_sweep, quick=96, thorough=1600, min_per_shard=3, sample_cap=1500),
+    SubCheck("multi", run_multi, strategy=st_multi, quick=1000, thorough=16000, sample_cap=1500),
+    SubCheck("unsaved", run_unsaved, strategy=st_unsaved, quick=600, thorough=10000, sample_cap=1500),
 ]
